@@ -304,6 +304,18 @@ func runC14(c *Ctx) {
 								if _, isFA := r.Addr.(*ssa.FieldAddr); isFA && r.Val == v {
 									escaped = r.Pos()
 								}
+								// a local cell (go/ssa spills results to cells when the function defers)
+								if al, isAl := r.Addr.(*ssa.Alloc); isAl && r.Val == v && al.Referrers() != nil {
+									for _, ar := range *al.Referrers() {
+										if ld, isLd := ar.(*ssa.UnOp); isLd && ld.Op == token.MUL {
+											follow(ld, depth+1)
+										}
+									}
+								}
+							case *ssa.Return:
+								// handed to the caller by the very function that releases the buffer
+								// (seed C14o: `defer pool.Put(dst) ... return dst.Bytes(), nil`)
+								escaped = r.Pos()
 							case *ssa.MakeInterface, *ssa.Slice, *ssa.ChangeType, *ssa.ChangeInterface, *ssa.Phi:
 								follow(r.(ssa.Value), depth+1)
 							case *ssa.Call:
@@ -318,7 +330,7 @@ func runC14(c *Ctx) {
 				})
 				if escaped != token.NoPos {
 					c.Bad("C14.1", FuncName(fn), "bytes-outlive-put", put.Pos(),
-						"a slice of this buffer's bytes is stored into a field ("+p.Pos(escaped)+") and the buffer is returned to the pool here: the stored slice still points into the array that the next RPC taking the buffer overwrites, so one RPC's backend can read another RPC's request")
+						"a slice of this buffer's bytes is stored into a field or returned to the caller ("+p.Pos(escaped)+") and the buffer is returned to the pool here: the stored slice still points into the array that the next RPC taking the buffer overwrites, so one RPC's backend can read another RPC's request")
 				}
 			}
 			// (b) use after put / double put
